@@ -233,7 +233,7 @@ class Ctx:
         return n
 
     # -- correspondence --------------------------------------------------------------------------
-    def run_cases(self, imports, input_type, run_fn, cases, shard=300, tag='corr', timeout=900, preamble=''):
+    def run_cases(self, imports, input_type, run_fn, cases, shard=300, tag='corr', timeout=900, preamble='', mismatch_fn='mismatches'):
         """cases: list of (coq_input_text, expected_val_python). Returns list of (index, model_output_text)."""
         if not cases:
             return []
@@ -247,7 +247,7 @@ class Ctx:
                 f.write(f"Definition cases : list (({input_type}) * val) := [\n")
                 f.write(";\n".join(f"  ({ci}, {cval(ev)})" for ci, ev in sh))
                 f.write("\n].\n")
-                f.write(f"Eval vm_compute in (mismatches {run_fn} 0 cases).\n")
+                f.write(f"Eval vm_compute in ({mismatch_fn} {run_fn} 0 cases).\n")
             jobs.append((k, name, path, len(sh)))
 
         def one(job):
